@@ -50,6 +50,7 @@ import (
 	"github.com/tink-crypto/tink-go/v2/signature/rsassapkcs1"
 	"github.com/tink-crypto/tink-go/v2/signature/rsassapss"
 	"github.com/tink-crypto/tink-go/v2/signature/slhdsa"
+	"github.com/tink-crypto/tink-go/v2/signprehash"
 	"github.com/tink-crypto/tink-go/v2/streamingaead"
 	"github.com/tink-crypto/tink-go/v2/tink"
 )
@@ -195,6 +196,27 @@ func factoryPrims(class string, h, pubh *keyset.Handle) (*prims, error) {
 		return nil, err
 	}
 	return p, nil
+}
+
+// mkPrehash: the pre-hashed signature flow of signprehash (ML-DSA keys)
+func (it *item) mkPrehash() maker {
+	return func() (*prims, error) {
+		p := &prims{}
+		var err error
+		if p.prehash, err = signprehash.NewPrehash(it.pubh); err != nil {
+			return nil, err
+		}
+		if p.phsigner, err = signprehash.NewPrehashSigner(it.h); err != nil {
+			return nil, err
+		}
+		if p.verifier, err = signature.NewVerifier(it.pubh); err != nil {
+			return nil, err
+		}
+		if op, ok := it.pubk.(interface{ OutputPrefix() []byte }); ok {
+			p.sigPrefix = op.OutputPrefix()
+		}
+		return p, nil
+	}
 }
 
 func (it *item) mkKS() maker {
@@ -442,7 +464,7 @@ func (e *engine) multiJobs(its []*item) (jobs []job) {
 					if err != nil {
 						return err
 					}
-					t.add("dec-member", ct, canon(pt), func(*hlib.Rng) string {
+					t.addX("dec-member", ct, pt, canon(pt), func(*hlib.Rng) string {
 						got, err := p.aead.Decrypt(ct, ad)
 						if err != nil {
 							return "err:" + errStr(err)
@@ -454,7 +476,7 @@ func (e *engine) multiJobs(its []*item) (jobs []job) {
 					if err != nil {
 						return err
 					}
-					t.add("dec-member", ct, canon(pt), func(*hlib.Rng) string {
+					t.addX("dec-member", ct, pt, canon(pt), func(*hlib.Rng) string {
 						got, err := p.daead.DecryptDeterministically(ct, ad)
 						if err != nil {
 							return "err:" + errStr(err)
@@ -466,7 +488,7 @@ func (e *engine) multiJobs(its []*item) (jobs []job) {
 					if err != nil {
 						return err
 					}
-					t.add("verify-member", tag, "ok", func(*hlib.Rng) string {
+					t.addX("verify-member", tag, pt, "ok", func(*hlib.Rng) string {
 						if err := p.mac.VerifyMAC(tag, pt); err != nil {
 							return "rejected:" + errStr(err)
 						}
@@ -493,7 +515,7 @@ func (e *engine) multiJobs(its []*item) (jobs []job) {
 					if err != nil {
 						return err
 					}
-					t.add("verify-member", sig, "ok", func(*hlib.Rng) string {
+					t.addX("verify-member", sig, pt, "ok", func(*hlib.Rng) string {
 						if err := p.verifier.Verify(sig, pt); err != nil {
 							return "rejected:" + errStr(err)
 						}
@@ -504,7 +526,7 @@ func (e *engine) multiJobs(its []*item) (jobs []job) {
 					if err != nil {
 						return err
 					}
-					t.add("dec-member", ct, canon(pt), func(*hlib.Rng) string {
+					t.addX("dec-member", ct, pt, canon(pt), func(*hlib.Rng) string {
 						got, err := p.hdec.Decrypt(ct, ad)
 						if err != nil {
 							return "err:" + errStr(err)
@@ -517,7 +539,7 @@ func (e *engine) multiJobs(its []*item) (jobs []job) {
 					if err != nil {
 						return err
 					}
-					t.add("stream-dec-member", ct, canon(long), func(gr *hlib.Rng) string {
+					t.addX("stream-dec-member", ct, long, canon(long), func(gr *hlib.Rng) string {
 						got, err := streamDecrypt(p.saead, ct, ad, gr)
 						if err != nil {
 							return "err:" + errStr(err)
@@ -537,7 +559,7 @@ func (e *engine) multiJobs(its []*item) (jobs []job) {
 					if err != nil {
 						return err
 					}
-					t.add("jwt-verify-member", []byte(c), verifiedCanon(v0), func(*hlib.Rng) string {
+					t.addX("jwt-verify-member", []byte(c), []byte(m.token), verifiedCanon(v0), func(*hlib.Rng) string {
 						v, err := p.jmac.VerifyMACAndDecode(c, val)
 						if err != nil {
 							return "rejected:" + errStr(err)
@@ -557,7 +579,7 @@ func (e *engine) multiJobs(its []*item) (jobs []job) {
 					if err != nil {
 						return err
 					}
-					t.add("jwt-verify-member", []byte(c), verifiedCanon(v0), func(*hlib.Rng) string {
+					t.addX("jwt-verify-member", []byte(c), []byte(m.token), verifiedCanon(v0), func(*hlib.Rng) string {
 						v, err := p.jverifier.VerifyAndDecode(c, val)
 						if err != nil {
 							return "rejected:" + errStr(err)
